@@ -11,6 +11,7 @@
   `Lemmas/TcValueCycleTarjan.lean`.
 -/
 import RotoV.Lemmas.TcValueCycle
+import RotoV.Lemmas.TcValueCycleTarjan
 import RotoV.Model.TcValueCyclePinned
 import RotoV.Generated.C07Cycle
 
@@ -46,22 +47,42 @@ theorem value_cycle_oracle_sound (g : Tarjan.Graph) (h : TcValueCycle.ruleReject
     ∃ c d, c ∈ g.keys ∧ g.kind c = .const ∧ Tarjan.Edge g c d ∧ Tarjan.Reach g d c :=
   TcValueCycle.ruleRejects_sound g h
 
-/- FULL STATEMENT (`recursive_constant_reported`): for every reference graph `g`,
-   every constant `c` with a reference `c → d` and `d →* c`:
-     ∃ c', g.kind c' = .const ∧ Tarjan.findCompilationOrder g = .ok (.recursive c')
-   Proved below from two facts about the components `tarjan` emits — every key is
-   in one, and an edge out of a component leads into it or into an earlier one
-   (`TcValueCycle.Closed`). -/
+/-- **T6 `recursive_constant_reported`** (full strength, every reference graph):
+    a constant `c` that refers to something (`c → d`) that leads back to it
+    (`d →* c`: through constants, through functions, through knots of mutually
+    recursive functions, whatever the rank order of the names) makes
+    `find_compilation_order` as written return `error_recursive_constant` — it
+    never returns a compilation order, never panics, never runs out of fuel.
+    Proof: `Tarjan.tarjan_total'` (no `unwrap` / index fails), the invariant of
+    Tarjan's algorithm `Tarjan.tarjan_closed` (Lemmas/TcValueCycleTarjan.lean:
+    stack / index / lowlink discipline, for all graphs: every key ends up in an
+    emitted component, and a reference out of an emitted component leads into it
+    or into an earlier one), and `TcValueCycle.reported_of_closed` (a cycle cannot
+    leave the first component that contains one of its members). -/
+theorem recursive_constant_reported (g : Tarjan.Graph) (c d : Nat) (hk : g.kind c = .const)
+    (e : Tarjan.Edge g c d) (r : Tarjan.Reach g d c) :
+    ∃ c', g.kind c' = .const ∧ Tarjan.findCompilationOrder g = .ok (.recursive c') := by
+  obtain ⟨comps, ht⟩ := Tarjan.tarjan_total' g
+  have hc := Tarjan.tarjan_closed g comps ht
+  exact TcValueCycle.reported_of_closed g comps ht ⟨hc.1, hc.2⟩ c d hk e r
 
-/-- **T6 `recursive_constant_reported_partial`**: given that the emitted
-    components are complete and closed (`TcValueCycle.Closed`), a constant that
-    refers to something that leads back to it makes `find_compilation_order`
-    return `error_recursive_constant`. -/
-theorem recursive_constant_reported_partial (g : Tarjan.Graph) (comps : List (List Nat))
-    (ht : Tarjan.tarjan g = .ok comps) (hc : TcValueCycle.Closed g comps)
-    (c d : Nat) (hk : g.kind c = .const) (e : Tarjan.Edge g c d) (r : Tarjan.Reach g d c) :
-    ∃ c', g.kind c' = .const ∧ Tarjan.findCompilationOrder g = .ok (.recursive c') :=
-  TcValueCycle.reported_of_closed g comps ht hc c d hk e r
+example : ∃ c', Tarjan.findCompilationOrder
+    ⟨[(0, [1, 2]), (1, [0]), (2, [1])], fun n => if n = 2 then .const else .func⟩ = .ok (.recursive c') :=
+  (recursive_constant_reported _ 2 1 (by decide) (by unfold Tarjan.Edge; decide)
+    (.step (b := 0) (by unfold Tarjan.Edge; decide)
+      (.step (b := 2) (by unfold Tarjan.Edge; decide) (.refl _)))).imp fun _ h => h.2
+
+/-- what the differential run's oracle rejects, the code as written rejects:
+    `ruleRejects g` (a constant on a cycle, by breadth-first closure) implies
+    `codeRejects g` (`find_compilation_order` = `error_recursive_constant`) -/
+theorem documented_rule_enforced (g : Tarjan.Graph) (h : TcValueCycle.ruleRejects g = true) :
+    TcValueCycle.codeRejects g = true := by
+  obtain ⟨c, d, _, hk, e, r⟩ := TcValueCycle.ruleRejects_sound g h
+  obtain ⟨c', _, hf⟩ := recursive_constant_reported g c d hk e r
+  simp [TcValueCycle.codeRejects, hf]
+
+example : TcValueCycle.ruleRejects
+    ⟨[(0, [1, 2]), (1, [0]), (2, [1])], fun n => if n = 2 then .const else .func⟩ = true := by decide
 
 /-- the seeded class in miniature, on the model: two mutually recursive
     functions `0 ⇄ 1`, the constant `2` read by `0` and defined through `1` —
